@@ -1,6 +1,10 @@
 package sqlparser
 
-import querypb "github.com/cossacklabs/acra/sqlparser/dependency/querypb"
+import (
+	"strconv"
+
+	querypb "github.com/cossacklabs/acra/sqlparser/dependency/querypb"
+)
 
 // RedactSQLQuery returns a sql string with the params stripped out for display
 func RedactSQLQuery(sql string) (string, error) {
@@ -13,6 +17,32 @@ func RedactSQLQuery(sql string) (string, error) {
 	}
 
 	Normalize(stmt, bv, ValueMask)
+	redactNumbersLeftByNormalize(stmt)
 
 	return comments.Leading + String(stmt) + comments.Trailing, nil
+}
+
+// redactNumbersLeftByNormalize replaces the numeric literals Normalize leaves in place because it cannot
+// represent them as bind values (99999999999999999999, 1e999, 08): they are literals of the statement all the same
+// and must not show up in its redacted form.
+func redactNumbersLeftByNormalize(stmt Statement) {
+	reserved := GetBindvars(stmt)
+	counter := len(reserved) + 1
+	_ = Walk(func(node SQLNode) (bool, error) {
+		val, ok := node.(*SQLVal)
+		if !ok || (val.Type != IntVal && val.Type != FloatVal) {
+			return true, nil
+		}
+		name := ValueMask + strconv.Itoa(counter)
+		for ; ; counter++ {
+			name = ValueMask + strconv.Itoa(counter)
+			if _, taken := reserved[name]; !taken {
+				break
+			}
+		}
+		reserved[name] = struct{}{}
+		val.Type = ValArg
+		val.Val = []byte(":" + name)
+		return true, nil
+	}, stmt)
 }
